@@ -623,18 +623,18 @@ def run_sel(ctx, op, r, fail):
     sl = ctx.slack(ax)
     lo, c, n = ctx.lo[ax], ctx.c[ax], ctx.n[ax]
     if arg is None or "point" in arg:
-        x = (ctx.lo[ax] + ctx.hi[ax]) / 2 if arg is None else FR(arg["point"])
-        if arg is None and not ctx.exact:
-            x = FR(mesh.region.center[ax])
+        if arg is None:  # the property: "the central cell if none is given" = the cell containing the region centre
+            x = (ctx.lo[ax] + ctx.hi[ax]) / 2 if ctx.exact else FR(mesh.region.center[ax])
+            src_x = float(mesh.region.center[ax])
+        else:
+            x = FR(arg["point"])
+            src_x = arg["point"]
         k = int(r["conv"][1][3])
         # the kept layer is the cell containing x
         if not (lo + k * c - sl <= x and (x < lo + (k + 1) * c + sl or (k == n - 1 and x <= ctx.hi[ax] + sl))) or \
                 (ctx.exact and x == lo + (k + 1) * c and not k == n - 1) or not (0 <= k < n):
             fail(f"{what}: selected layer {k} = [{float(lo + k * c)}, {float(lo + (k + 1) * c)}) does not contain the requested coordinate {float(x)}")
             return
-        src_x = float(x) if ctx.exact or arg is not None else float(mesh.region.center[ax])
-        if arg is not None:
-            src_x = arg["point"]
         if ctx.ndim == 1:
             i = mesh.point2index([src_x])
             if not (isinstance(g, np.ndarray) and np.array_equal(g, f.array[i])):
@@ -900,9 +900,9 @@ RUNNERS = {"sel": run_sel, "getname": run_getitem, "getregion": run_getitem, "r2
 def classify(text):
     """id of the (candidate) known finding a failure text belongs to"""
     if "[box-touches-upper-boundary]" in text and "IndexError" in text:
-        return "D21"
+        return "D71"
     if "[range-selection-next-to-subregion-face]" in text and "Subregion" in text:
-        return "D22"
+        return "D72"
     return None
 
 
